@@ -15,6 +15,8 @@ PROPS = {
     "C07": grid_prop(15000, 600000, floors=dict(FAMS, **{"limits": 0.2, "scale:vector": 0.02, "scale:raw": 0.02, "classic:tol-gap": 0.05, "classic:tol0": 0.03, "merge": 0.03,
                      "strategy:classic": 0.01, "strategy:parents": 0.01, "strategy:direction": 0.01, "strategy:fds": 0.01, "strategy:stable": 0.01})),
     "C08": grid_prop(20000, 800000, hang_is_violation=True, floors=dict(FAMS, **{"type:curved": 0.05, "limits:binding": 0.2, "limits:persisted-call": 0.1, "limits:-1-mixed": 0.1, "limits:saturated-return": 0.03})),
+    "C09": grid_prop(8000, 300000, floors=dict(FAMS, **{"batch:singles": 0.2, "interleaved-candidates": 0.1, "start:empty": 0.15, "target:stable-refined": 0.03})),
+    "C11": grid_prop(25000, 800000, floors=dict(FAMS, **{"range-copy": 0.1, "src:pending": 0.015, "src:constructing": 0.05, "range:construction-continuation": 0.01})),
     "C06": grid_prop(40000, 1500000,
                      floors={"fam:global": 0.08, "fam:sequence": 0.08, "fam:localp": 0.08, "fam:wavelet": 0.08, "fam:fourier": 0.08,
                              "fmt:ascii": 0.35, "sec:pending": 0.04, "sec:construction": 0.04, "sec:transform": 0.04, "sec:limits": 0.04}),
@@ -27,6 +29,14 @@ NOT_APPLICABLE = {}
 
 _TB = "Trusted base: the harness (decoder, reference models, oracles) and the sanitizer runtimes; generation is random, so absence of violations is evidence for the explored distribution only (reported in the evidence file)."
 META = {
+    "C11": dict(technique="property-based testing (rapidcheck, structure-aware byte decoder): observational digest equality / restriction after every copy route, bitwise independence under generated mutation scripts, ASan for shared state",
+                text="Source grids from generated histories are copied through the copy constructor, assignment onto a used grid, copyGrid and copyGrid with an output sub-range (including -1 and a beyond-range end); the copy's digest must equal the (restricted) digest of the source, "
+                     "a generated mutation script on either side must leave the other side bitwise unchanged, and range copies taken during construction must stay the restriction of the source after a common continuation. Exploration.",
+                note=_TB),
+    "C09": dict(technique="property-based testing (rapidcheck, structure-aware byte decoder): differential against a batch-loaded reference grid plus a permutation-vs-permutation metamorphic relation; ASan/UBSan",
+                text="For generated specs (nested rules of all families) a target set is taken from a deeper or stably refined reference grid loaded in one batch; the same samples are delivered through loadConstructedPoints under two generated schedules "
+                     "(order, batch partition, interleaved candidate queries). After finishConstruction each run must hold exactly the target points with the delivered values (bitwise), its surrogate must equal the reference and the other schedule, and candidate lists must not contain loaded points. Exploration.",
+                note=_TB),
     "C08": dict(technique="stateful property-based testing (rapidcheck, structure-aware byte decoder): limits model + 1-D reference node sets built from 1-D grids of depth = limit, metamorphic check of the -1 entries, per-case watchdog for termination; ASan/UBSan",
                 text="Generated limits vectors (entries -1,0..3) are supplied at make time or by later calls, replaced, cleared or omitted, across generated sequences of update / anisotropic and surplus refinement / construction-candidate calls on all families and depth types; "
                      "getLevelLimits() must follow the model, every point that appears while limits are in force must lie on 1-D nodes of level <= limit, -1 must equal an unreachable limit, and every call must return (a reproducible watchdog hit is a violation). Exploration.",
